@@ -418,9 +418,9 @@ func init() {
 				c.Cover("unknown-field-target")
 			}})
 			// part 2: class positions
-			for _, hoist := range []bool{false, true} {
-				hoist := hoist
-				us = append(us, core.Unit{Name: fmt.Sprintf("positions:hoist=%v", hoist), Cost: 50, Run: func(c *core.Ctx) {
+			for _, hoistMode := range []int{0, 1, 2} {
+				hoist, reversed := hoistMode > 0, hoistMode == 2
+				us = append(us, core.Unit{Name: fmt.Sprintf("positions:hoist=%v:reversed=%v", hoist, reversed), Cost: 50, Run: func(c *core.Ctx) {
 					target := &B3{A: 13, S: "s3", F: true}
 					tm, nm, _ := Maps(target)
 					c1t := reflect.TypeOf(zoo.C1{})
@@ -477,12 +477,15 @@ func init() {
 								if hoist {
 									pick.m["hoist-classdef"] = 1
 								}
+								if reversed {
+									pick.m["hoist-order"] = 1 // definitions up front in the reverse of the order of first use
+								}
 								if long {
 									pick.m["object-form"] = 1
 								}
 								e := rh.NewEncoder(pick)
 								e.Top(list)
-								desc := fmt.Sprintf("target class at definition index %d (hoisted=%v, long form=%v, %d classes after it)", p, hoist, long, after)
+								desc := fmt.Sprintf("target class at definition index %d (hoisted=%v, reverse order=%v, long form=%v, %d classes after it)", p, hoist, reversed, long, after)
 								if _, err := rh.ParseOne(e.Out); err != nil {
 									c.Report(&core.Violation{Stage: "selfcheck", Kind: "harness", Shape: "R1", Message: err.Error(), Case: desc})
 									continue
@@ -500,12 +503,15 @@ func init() {
 						}
 					}
 					c.Cover(fmt.Sprintf("positions:hoist=%v", hoist))
+					if reversed {
+						c.Cover("positions:reversed")
+					}
 				}})
 			}
 			return us
 		},
 		RequireCover: func(string) []string {
-			return []string{"extra-forms", "two-unknown", "defs:B1", "defs:B5", "defs:B6", "positions:hoist=true", "positions:hoist=false", "extra:unknown-class object", "extra:ref to the object itself", "extra:map", "extra:null", "extra:registered-class object", "unknown-field-target"}
+			return []string{"extra-forms", "two-unknown", "defs:B1", "defs:B5", "defs:B6", "positions:hoist=true", "positions:hoist=false", "positions:reversed", "extra:unknown-class object", "extra:ref to the object itself", "extra:map", "extra:null", "extra:registered-class object", "unknown-field-target"}
 		},
 	})
 }
